@@ -49,6 +49,22 @@ func genHeader(p *prng.R) (raw []byte, feats map[string]bool) {
 		feats["hdr-bare-lf"] = true
 	}
 	used := map[string]bool{}
+	if p.Chance(1, 12) {
+		// header well beyond 64 KiB (the endpoint accepts up to max_header_size, 1 MiB by default)
+		feats["hdr-huge"] = true
+		total := p.Range(70, 400) * 1024
+		for b.Len() < total {
+			b.WriteString(prng.Pick(p, []string{"X-Bulk", "Received", "X-Spam-Report", "References"}))
+			b.WriteString(": ")
+			for j := 0; j < p.Range(3, 12); j++ {
+				if j > 0 {
+					b.WriteString(eol + " ")
+				}
+				b.WriteString(word(p, p.Range(20, 900)))
+			}
+			b.WriteString(eol)
+		}
+	}
 	for i := 0; i < n; i++ {
 		name := prng.Pick(p, fieldNames)
 		if used[name] {
@@ -426,14 +442,34 @@ func TestVerif(t *testing.T) {
 			q := newQ(retry1)
 			ctx := context.Background()
 			meta := env.meta // the queue keeps the pointer; hand it a private copy
+			// The SMTP endpoint and the pipeline fill parts of the shared metadata object only AFTER
+			// the target's Start: OriginalRcpts while recipients are added, TLSRequireOverride once the
+			// header has been read at DATA time. Half of the cases follow that order.
+			lateFill := p.Bool()
+			if lateFill {
+				meta.TLSRequireOverride = false
+				meta.OriginalRcpts = nil
+			}
 			d, err := q.Start(ctx, &meta, env.from)
 			if err != nil {
 				t.Fatal(err)
 			}
 			for _, rc := range env.rcpts {
+				if lateFill {
+					if o, ok := env.origRcpts[rc]; ok {
+						if meta.OriginalRcpts == nil {
+							meta.OriginalRcpts = map[string]string{}
+						}
+						meta.OriginalRcpts[rc] = o
+					}
+				}
 				if err := d.AddRcpt(ctx, rc, smtp.RcptOptions{}); err != nil {
 					t.Fatal(err)
 				}
+			}
+			if lateFill {
+				meta.TLSRequireOverride = env.meta.TLSRequireOverride
+				env.feats["late-fill"] = true
 			}
 			if err := d.Body(ctx, hdr, body); err != nil {
 				c.Inconclusive("queue refused the body: " + err.Error())
